@@ -165,7 +165,35 @@ LONG_NAMES_DOC = ("# Pasta bake for 2\n\n    slow roasted tomato and red pepper 
                   "          tray of {6} chocolate chip cookies batch 1, tray of {6} chocolate chip cookies batch 2)\n")
 
 
+# only the two documented info strings, exactly as documented, make a recipe block; a block labelled otherwise is ordinary code, names in it link nowhere
+LABEL_DOC = ("# Two dishes\n\n```recipe\nsauce = boil(tomatoes)\npour(1/2 of the sauce, pasta)\nfreeze(rest of the sauce)\n```\n\n"
+             "%s\n\n```recipe\nserve(toast)\n```\n")
+OTHER_LABELS = ["New-Recipe", "NEW-RECIPE", "Recipe", "RECIPE", "recipe-grid", "recipes", "new_recipe", "new-recipe2", "rEcIpE"]
+
+
+def check_labels():
+    out = []
+    for lab in OTHER_LABELS:
+        for fence in ("```", "~~~"):
+            text = LABEL_DOC % ("%s%s\nfry(sauce, egg)\nsauce = 1 jar\n%s" % (fence, lab, fence))
+            try:
+                html = M.compile_markdown(text).render(2)
+            except Exception as e:  # noqa
+                out.append(("C09:code-block-with-another-label-read-as-a-recipe", "label %r: %s: %s" % (lab, type(e).__name__, str(e)[:100])))
+                continue
+            root, _ = htmltok.tree(html)
+            tables = [n for n in root.iter() if n.tag == "table" and "rg-table" in n.classes()]
+            links = [n for n in root.iter() if n.tag == "td" and "rg-reference" in n.classes()]
+            codes = [n for n in root.iter() if n.tag == "pre"]
+            if (len(tables), len(links), len(codes)) != (4, 2, 1):
+                out.append(("C09:code-block-with-another-label-read-as-a-recipe", "label %r: %d tables, %d reference cells, %d code blocks; expected 4, 2, 1" % (lab, len(tables), len(links), len(codes))))
+    return out
+
+
 def oracle(run):
+    run.case(("labels",), True, kind="fence-labels")
+    for sig, detail in check_labels():
+        run.violate(sig, detail, {"labels": True})
     docs = [(LONG_NAMES_DOC, None), (COLLISION_DOC, None), (ACCENT_DOC, None), (NUMBERED_NAME_DOC, None), (TWIN_RECIPES_DOC, None), (REUSED_NAME_DOC, None)] + [(d.text(), d.descs) for d in c13.gen_cases(run, run.budget(150, 4000))]
     for text, descs in docs:
         run.case(("oracle", text), "rg-reference" in text or True, kind="document")
@@ -178,6 +206,11 @@ def oracle(run):
 
 
 def replay(run, obj):
+    if obj["replay"].get("labels"):
+        res = check_labels()
+        for x in res:
+            print(*x)
+        return bool(res)
     res = check_doc(obj["replay"]["document"])
     for x in res:
         print(*x)
